@@ -220,6 +220,7 @@ var getterTypes = map[int][]int{
 }
 
 func runC07(o *out, thorough bool, r *rng, _ []string) map[string]interface{} {
+	sharedDestinationMonitor(o, r, 300)
 	lookupCases(o, r, 600) // getters run through ForEach: a failing callback must not leave the message truncated
 	reps := 2
 	if thorough {
@@ -427,6 +428,7 @@ func goXorValue(ip []byte, port int, tid []byte) []byte {
 }
 
 func runC06(o *out, thorough bool, r *rng, _ []string) map[string]interface{} {
+	sharedDestinationMonitor(o, r, 300)
 	ips := func() []byte {
 		switch r.intn(6) {
 		case 0:
@@ -519,4 +521,51 @@ func runC06(o *out, thorough bool, r *rng, _ []string) map[string]interface{} {
 		}
 	}
 	return map[string]interface{}{"exhaustive_part": "all ports 0..65535 (Spec encoder vs library bytes; every 16th through the full round trip), text lengths 0..limit+1 for the 4 text attributes, all codes 300..699, unknown-attribute lists of 0..64 types"}
+}
+
+// sharedDestinationMonitor: one destination value used for message 1 and then for message 2.  Getters that
+// return views (text attributes, ERROR-CODE reason) or reuse storage must not write through the
+// destination into message 1, and must deliver message 2's value.
+func sharedDestinationMonitor(o *out, r *rng, n int) {
+	for i := 0; i < n; i++ {
+		mk := func() *stun.Message {
+			m := new(stun.Message)
+			reason := r.bytes(r.pick([]int{0, 3, 12, 40}))
+			user := r.bytes(r.pick([]int{0, 5, 17, 60}))
+			_ = m.Build(stun.BindingRequest, stun.TransactionID, stun.Username(user), stun.Realm(r.bytes(r.intn(30))),
+				stun.ErrorCodeAttribute{Code: stun.ErrorCode(r.rangeIn(300, 699)), Reason: reason},
+				&stun.XORMappedAddress{IP: r.bytes(r.pick([]int{4, 16})), Port: r.intn(65536)},
+				stun.UnknownAttributes{stun.AttrType(r.intn(65536)), stun.AttrType(r.intn(65536))})
+			d := new(stun.Message)
+			_ = stun.Decode(m.Raw, d)
+			return d
+		}
+		m1, m2 := mk(), mk()
+		raw1 := append([]byte(nil), m1.Raw...)
+		fresh := func(m *stun.Message) string {
+			var u stun.Username
+			var re stun.Realm
+			var e stun.ErrorCodeAttribute
+			var x stun.XORMappedAddress
+			var ua stun.UnknownAttributes
+			_, _, _, _, _ = u.GetFrom(m), re.GetFrom(m), e.GetFrom(m), x.GetFrom(m), ua.GetFrom(m)
+			return fmt.Sprint([]byte(u), []byte(re), e.Code, e.Reason, x.IP, x.Port, ua)
+		}
+		want2 := fresh(m2)
+		var u stun.Username
+		var re stun.Realm
+		var e stun.ErrorCodeAttribute
+		var x stun.XORMappedAddress
+		var ua stun.UnknownAttributes
+		_, _, _, _, _ = u.GetFrom(m1), re.GetFrom(m1), e.GetFrom(m1), x.GetFrom(m1), ua.GetFrom(m1)
+		_, _, _, _, _ = u.GetFrom(m2), re.GetFrom(m2), e.GetFrom(m2), x.GetFrom(m2), ua.GetFrom(m2)
+		got2 := fmt.Sprint([]byte(u), []byte(re), e.Code, e.Reason, x.IP, x.Port, ua)
+		if got2 != want2 {
+			o.fail("getter-depends-on-destination", "x second message "+fHex(m2.Raw))
+		}
+		if !bytes.Equal(m1.Raw, raw1) {
+			o.fail("getter-writes-into-earlier-message", "x first message "+fHex(raw1)+" second "+fHex(m2.Raw))
+		}
+		o.count("shared-destination")
+	}
 }
